@@ -1137,35 +1137,105 @@ func checkGlobResults(p *core.Prog, r *core.Result, compile *ssa.Function) {
 			continue
 		}
 		// a glob builtin compiles two sets (include, exclude)
+		// the sets compiled by f, or by helpers of its package that f calls (a helper may compile both sets and hand
+		// back a predicate)
 		var sets []ssa.Value
-		for _, c := range core.Calls(f) {
-			call, ok := c.(*ssa.Call)
-			if !ok || !isCompile(core.Callee(c)) {
-				continue
+		seenF := map[*ssa.Function]bool{}
+		var gather func(g *ssa.Function, depth int)
+		gather = func(g *ssa.Function, depth int) {
+			if g == nil || seenF[g] || g.Blocks == nil || depth > 2 {
+				return
 			}
-			if e := extractOf(call, 0); e != nil {
-				sets = append(sets, e)
+			seenF[g] = true
+			for _, gg := range core.WithAnons(g) {
+				for _, c := range core.Calls(gg) {
+					call, ok := c.(*ssa.Call)
+					if !ok {
+						continue
+					}
+					h := core.Callee(c)
+					if isCompile(h) {
+						if e := extractOf(call, 0); e != nil {
+							sets = append(sets, e)
+						}
+						continue
+					}
+					if h != nil && h.Pkg == f.Pkg && h.Parent() == nil && depth < 2 {
+						gather(h, depth+1)
+					}
+				}
 			}
 		}
+		gather(f, 0)
 		if len(sets) < 2 {
 			continue
 		}
+		// only functions that add results themselves are glob builtins
+		hasAdd := false
+		for _, g := range core.WithAnons(f) {
+			core.Instrs(g, func(in ssa.Instruction) {
+				if call, ok := in.(*ssa.Call); ok && core.IsMethod(call, pkgStar, "List", "Append") {
+					hasAdd = true
+				}
+				if call, ok := in.(*ssa.Call); ok {
+					if b, isB := call.Call.Value.(*ssa.Builtin); isB && b.Name() == "append" {
+						if sl, ok := call.Type().Underlying().(*types.Slice); ok {
+							if n, ok := sl.Elem().(*types.Named); ok && n.Obj().Name() == "Value" {
+								hasAdd = true
+							}
+						}
+					}
+				}
+			})
+		}
+		if !hasAdd {
+			continue
+		}
 		nFn++
-		isSet := func(v ssa.Value) ssa.Value {
+		var isSetD func(v ssa.Value, depth int) ssa.Value
+		isSet := func(v ssa.Value) ssa.Value { return isSetD(v, 0) }
+		isSetD = func(v ssa.Value, depth int) ssa.Value {
+			if depth > 4 {
+				return nil
+			}
 			v = core.Unwrap(v)
-			if ld, ok := v.(*ssa.UnOp); ok && ld.Op == token.MUL {
-				if s := core.SingleStore(ld.X); s != nil {
-					v = core.Unwrap(s)
-				}
-			}
-			if fv, ok := v.(*ssa.FreeVar); ok {
-				if b := core.Binding(fv); b != nil {
-					v = core.Unwrap(b)
-				}
-			}
 			for _, s := range sets {
 				if v == s {
 					return s
+				}
+			}
+			switch x := v.(type) {
+			case *ssa.UnOp:
+				if x.Op == token.MUL {
+					if s := core.SingleStore(x.X); s != nil {
+						return isSetD(s, depth+1)
+					}
+				}
+			case *ssa.FreeVar:
+				if b := core.Binding(x); b != nil {
+					return isSetD(b, depth+1)
+				}
+			case *ssa.Alloc:
+				if s := core.SingleStore(x); s != nil {
+					return isSetD(s, depth+1)
+				}
+			case *ssa.Extract:
+				// a result of a helper of the package: what its successful returns yield at that position
+				if c, ok := x.Tuple.(*ssa.Call); ok {
+					if h := core.Callee(c); h != nil && h.Pkg == f.Pkg && h.Blocks != nil && !isCompile(h) {
+						var res ssa.Value
+						for _, ret := range core.ReturnsOf(h) {
+							if x.Index >= len(ret.Results) || core.IsNilConst(ret.Results[x.Index]) {
+								continue
+							}
+							r := isSetD(ret.Results[x.Index], depth+1)
+							if r == nil || (res != nil && res != r) {
+								return nil
+							}
+							res = r
+						}
+						return res
+					}
 				}
 			}
 			return nil
